@@ -15,7 +15,7 @@ def ref_unquote_to_bytes(s: str) -> bytes:
     n = len(s)
     while i < n:
         c = s[i]
-        if c == "%" and i + 2 < n + 0 and s[i + 1] in HEX and s[i + 2] in HEX:
+        if c == "%" and i + 2 < n and s[i + 1] in HEX and s[i + 2] in HEX:
             out.append(bytes([int(s[i + 1:i + 3], 16)]))
             i += 3
         else:
@@ -59,3 +59,26 @@ class DummyConnection:
     def finish(self):
         self.writes.append(("finish",))
         self.finished = True
+
+
+def fix_crosshair_groupdict():
+    """CrossHair 0.0.110 models re.Match.groupdict() wrongly (returns the (start, end) spans instead of
+    the matched strings and ignores `default`).  Install the obvious correction into the MODEL (no
+    tornado code is touched).  No-op in the plain-interpreter replay (CrossHair not imported there)."""
+    import sys
+    relib = sys.modules.get("crosshair.libimpl.relib")
+    if relib is None:
+        try:
+            import crosshair.libimpl.relib as relib  # type: ignore
+        except Exception:
+            return False
+
+    def groupdict(self, default=None):
+        ret = {}
+        for name, idx in self.re.groupindex.items():
+            g = self.group(idx)
+            ret[name] = default if g is None else g
+        return ret
+
+    relib._Match.groupdict = groupdict
+    return True
